@@ -39,6 +39,21 @@ class ScannerStub:
         self.started = False
 
 
+LOADS: list = []  # every AsyncServiceInfo.load_from_cache call of the run: {"t", "seq", "name", "type", "ok"}
+_SEQ = [0]
+
+
+def next_seq() -> int:
+    """one counter orders announcements and cache reads of a run exactly (no ties, unlike virtual time)"""
+    _SEQ[0] += 1
+    return _SEQ[0]
+
+
+def reset_observation() -> None:
+    LOADS.clear()
+    _SEQ[0] = 0
+
+
 REQUEST_DELAY = [0.0]  # simulated duration of an mDNS query that the cache cannot answer (set per run by the check)
 
 
@@ -51,6 +66,20 @@ def install() -> None:
     from zeroconf.asyncio import AsyncServiceInfo
 
     class SimServiceInfo(AsyncServiceInfo):
+        def load_from_cache(self, zc, now=None):
+            # observation point for the checks: WHEN the library reads a service out of the cache, and whether it was complete.
+            # This is the third-party boundary every implementation has to cross to process an announcement, whatever debounce,
+            # timer or task it uses to get there.
+            ok = super().load_from_cache(zc, now)
+            try:
+                import asyncio
+
+                t = asyncio.get_running_loop().time()
+            except RuntimeError:
+                t = None
+            LOADS.append({"t": t, "seq": next_seq(), "name": self.name, "type": self.type, "ok": bool(ok)})
+            return ok
+
         async def async_request(self, zc, timeout, question_type=None, addr=None, port=5353):
             # the real one answers from the cache when it can and otherwise sends questions and WAITS (up to `timeout` ms) for the
             # records to arrive; REQUEST_DELAY[0] is how long that takes in this run (0 = the call never suspends)
